@@ -48,6 +48,94 @@ EXPR_EQ = {k: CLASSES[k](S, M, M).doit() for k in ("PhaseSpaceFactorSWave", "Equ
 FUN_EQ = {k: sp.lambdify((S, M), e, "numpy") for k, e in EXPR_EQ.items()}
 
 
+# pure-Python backend (lambdify modules="math"): ComplexSqrt has its own printer for it
+MATH_KEYS = ("q2", "PhaseSpaceFactor", "PhaseSpaceFactorAbs", "PhaseSpaceFactorComplex", "EqualMassPhaseSpaceFactor")
+FUN_MATH = {k: sp.lambdify((S, M1, M2), EXPR[k], "math") for k in MATH_KEYS}
+FUN_MATH_MM = {k: sp.lambdify((S, M), CLASSES[k](S, M, M).doit(), "math") for k in MATH_KEYS}
+_A, _B, _X = sp.symbols("a b x")
+from ampform.sympy.math import ComplexSqrt  # noqa: E402
+
+CSQRT_MATH = {  # form -> (function of (a, b), exact argument as a function of (a, b))
+    "symbol": (lambda a, b, f=sp.lambdify((_X,), ComplexSqrt(_X), "math"): f(a), lambda a, b: a),
+    "sum": (sp.lambdify((_A, _B), ComplexSqrt(_A + _B), "math"), lambda a, b: a + b),
+    "difference": (sp.lambdify((_A, _B), ComplexSqrt(_A - _B), "math"), lambda a, b: a - b),
+    "product": (sp.lambdify((_A, _B), ComplexSqrt(_A * _B), "math"), lambda a, b: a * b),
+}
+
+
+def arg_kinds(vals):
+    """the ways a real number reaches a math-backend function: float, numpy.float64, int (if integral)."""
+    out = [("float", tuple(float(v) for v in vals)), ("np.float64", tuple(np.float64(float(v)) for v in vals))]
+    if all(F(v).denominator == 1 for v in vals):
+        out.append(("int", tuple(int(v) for v in vals)))
+    return out
+
+
+def check_math(case, s, m1, m2, reg, val, tol):
+    """math backend vs the (already checked) NumPy values; ComplexSqrt's printed code on its own."""
+    fails, nev = [], 0
+    thr = (m1 + m2) ** 2
+    at_edge = reg in ("at_threshold", "at_pseudothreshold")
+
+    def usable(k):
+        if k == "PhaseSpaceFactor":
+            return reg == "above"           # math.sqrt of a negative number raises below threshold
+        if k == "PhaseSpaceFactorComplex":
+            return s > 0                    # 1/math.sqrt(s)
+        return True
+
+    def compare(sig, k, f, vals):
+        nonlocal nev
+        ref = val[k]
+        if not (math.isfinite(ref.real) and math.isfinite(ref.imag)):
+            return
+        tk = max(tol, 64 * EPS * amp_for(k, s, m1, m2))
+        if tk >= MEANINGLESS:
+            return
+        for kind, args in arg_kinds(vals):
+            nev += 1
+            try:
+                v = complex(f(*args))
+            except (ValueError, ZeroDivisionError, OverflowError, TypeError) as exc:
+                if at_edge:
+                    continue  # 1/0.0 raises in pure Python where IEEE gives inf: reported by the notes
+                fails.append((f"{sig}_raises:{k}:{reg}", f"math backend ({kind} args) raised {exc!r}; numpy gives {ref} at {case}"))
+                continue
+            if not close(v, ref, tk, 64 * EPS):
+                fails.append((f"{sig}:{k}:{reg}", f"math backend ({kind} args) gives {v}, numpy backend {ref} at {case}"))
+
+    # ComplexSqrt alone, its printed code on a symbol / sum / difference / product
+    d = s - thr  # negative below threshold, zero at it, positive above
+    region = "neg" if d < 0 else ("zero" if d == 0 else "pos")
+    pairs = {"symbol": (d, F(0)), "sum": (s, -thr), "difference": (s, thr), "product": (d, F(1, 4))}
+    for form in ("symbol", "product", "sum", "difference"):
+        f, argf = CSQRT_MATH[form]
+        a, b = pairs[form]
+        exact = argf(a, b)
+        if F(float(a)) != a or F(float(b)) != b or F(float(exact)) != exact:
+            continue  # keep the comparison free of input rounding
+        x = float(exact)
+        want = complex(0.0, math.sqrt(-x)) if x < 0 else complex(math.sqrt(x), 0.0)
+        for kind, args in arg_kinds((a, b)):
+            nev += 1
+            try:
+                v = complex(f(*args))
+            except (ValueError, TypeError) as exc:
+                fails.append((f"pycode_csqrt_raises:{form}:{region}", f"lambdify(ComplexSqrt({form}), 'math')({args[0]!r}, {args[1]!r}) [{kind}] raised {exc!r}, expected {want} at {case}"))
+                continue
+            if not close(v, want, 8 * EPS, 0.0) and not (v == want):
+                fails.append((f"pycode_csqrt:{form}:{region}", f"lambdify(ComplexSqrt({form}), 'math')({args[0]!r}, {args[1]!r}) [{kind}] = {v}, expected {want} at {case}"))
+    # the phase-space classes: three-argument trees first, then the (s, m, m) trees
+    for k in MATH_KEYS:
+        if usable(k):
+            compare("math_backend", k, FUN_MATH[k], (s, m1, m2))
+    if m1 == m2:
+        for k in MATH_KEYS:
+            if usable(k):
+                compare("math_backend_mmtree", k, FUN_MATH_MM[k], (s, m1))
+    return fails, nev
+
+
 def fr(x: float) -> str:
     f = F(x)
     return f"{f.numerator}/{f.denominator}"
@@ -251,6 +339,12 @@ def check_case(case: dict, deep: bool):
                 if not (abs(v) <= 1e-7):  # nan or a jump: contradicts continuity
                     fails.append((f"threshold_value:{k}", f"{k} at exactly s=4m^2 gives {v} (limit is 0) at {case}"))
 
+    # pure-Python backend, float / numpy.float64 / int arguments
+    if s != 0:
+        mf, mn = check_math(case, s, m1, m2, reg, val, tol)
+        fails += mf
+        nev += mn
+
     # SymPy evaluation of the same trees at the exact rationals (precision-tracking: covers the
     # regimes where double precision says nothing, e.g. s = 1e8 m^2)
     if deep and s != 0:
@@ -359,7 +453,7 @@ def main():
         case = doc["replay"]["case"]
         fails, _, _, _ = check_case(case, True)
         sig = doc.get("signature")
-        hit = [f for f in fails if f[0] == sig] or fails
+        hit = [f for f in fails if f[0] == sig] if sig else fails  # the stored identity only
         print(json.dumps({"still_fails": bool(hit), "fails": [list(f) for f in hit[:5]]}))
         return
     seed, n = int(sys.argv[1]), int(sys.argv[2])
@@ -375,6 +469,17 @@ def main():
         {"kind": "fixed", "s": "9/16", "m1": "1/2", "m2": "1/4"},
         {"kind": "fixed", "s": "1/16", "m1": "1/2", "m2": "1/4"},
         {"kind": "fixed", "s": "1/4", "m1": "1/2", "m2": "1/4"},
+        # integer arguments for the math backend: gap / above / negative / at threshold
+        {"kind": "fixed", "s": "3/1", "m1": "1/1", "m2": "1/1"},
+        {"kind": "fixed", "s": "5/1", "m1": "1/1", "m2": "1/1"},
+        {"kind": "fixed", "s": "-2/1", "m1": "1/1", "m2": "1/1"},
+        {"kind": "fixed", "s": "4/1", "m1": "1/1", "m2": "1/1"},
+        {"kind": "fixed", "s": "5/1", "m1": "1/1", "m2": "2/1"},
+        {"kind": "fixed", "s": "10/1", "m1": "1/1", "m2": "2/1"},
+        # regression (fixed defect): ComplexSqrt._pythoncode printed sqrt(-a + b) for ComplexSqrt(a + b);
+        # lambdify(PhaseSpaceFactorComplex(s,m,m).doit(), "math")(0.5, 0.5) gave 1.732j instead of 1j
+        {"kind": "fixed:regression_pycode_precedence", "s": "1/2", "m1": "1/2", "m2": "1/2"},
+        {"kind": "fixed:regression_pycode_precedence", "s": "9/10", "m1": "1/2", "m2": "1/2"},
     ]
     kinds["fixed"] = len(fixed)
     cases = fixed + cases
@@ -382,7 +487,7 @@ def main():
     evaluations = 0
     notes = {}
     for i, c in enumerate(cases):
-        deep = (i % deep_every == 0) or c["kind"].endswith("asymptotic") or c["kind"] == "fixed"
+        deep = (i % deep_every == 0) or c["kind"].endswith("asymptotic") or c["kind"].startswith("fixed")
         fails, nev, nontrivial, nts = check_case(c, deep)
         evaluations += nev
         if nontrivial:
